@@ -195,6 +195,22 @@ def make_rule(rid, select, acc_names, floor, what):
                 inst = "%s : %s at line %s under `%s`" % (key, how, node.get("ln"), r.e(strip(a["c"]))[:50])
                 res.instance(inst)
                 v = vanishes(c, val, roots, block_inits)
+                # a tested value that is read out of a container by position (`norm_rows_w[j]`: a cache kept beside the data)
+                # says nothing here about what it is the norm of: the relation between the cache and the term is not visible
+                def _indexed(e_, depth=0):
+                    e_ = peel_refs(e_)
+                    if e_.get("k") == "Index":
+                        return True
+                    if e_.get("k") == "Path" and e_.get("local") in inits and depth < 3:
+                        return _indexed(inits[e_["local"]], depth + 1)
+                    return False
+                cached = False
+                cnd_ = strip(a["c"])
+                for side in ([cnd_.get("l"), cnd_.get("r")] if cnd_.get("k") == "Binary" else list(cnd_.get("args", []))):
+                    if side is not None and _indexed(side):
+                        cached = True
+                if v is False and cached:
+                    v = None
                 if v is True:
                     res.ok()
                 elif v is False:
